@@ -266,6 +266,29 @@ func wakeScenarios() []wakeScenario {
 				e.Exec(ctx, &Op{Kind: "StreamAckNack", Nacks: ids}, &Dump{})
 			}
 		}},
+		{"dead-lettering-of-ordered-predecessor-nothing-to-forward-to", func(e *Env, run func(*Op) *Obs) (string, func()) {
+			// the dead-letter topic has no subscription left: nothing is forwarded, the
+			// predecessor is just retired -- its successor becomes deliverable all the same
+			baseSetup(run, true, true)
+			run(&Op{Kind: "DeleteSub", Name: "projects/p/subscriptions/d0"})
+			run(&Op{Kind: "DeleteSub", Name: "projects/p/subscriptions/d1"})
+			run(pub(2, "k"))
+			o := run(&Op{Kind: "Pull", Name: "projects/p/subscriptions/s0", Max: 1})
+			ids := mustIDs(o)
+			return "projects/p/subscriptions/s0", func() {
+				e.Exec(ctx, &Op{Kind: "StreamAckNack", Nacks: ids}, &Dump{})
+			}
+		}},
+		{"dead-lettering-of-ordered-predecessor-deleted-dead-letter-topic", func(e *Env, run func(*Op) *Obs) (string, func()) {
+			baseSetup(run, true, true)
+			run(&Op{Kind: "DeleteTopic", Name: "projects/p/topics/dl"})
+			run(pub(2, "k"))
+			o := run(&Op{Kind: "Pull", Name: "projects/p/subscriptions/s0", Max: 1})
+			ids := mustIDs(o)
+			return "projects/p/subscriptions/s0", func() {
+				e.Exec(ctx, &Op{Kind: "StreamAckNack", Nacks: ids}, &Dump{})
+			}
+		}},
 	}
 }
 
